@@ -546,6 +546,94 @@ class CRG_reverse_0(LoopInv):
         return [ctx.v_entry.bref(x)]
 
 
+class _MG_compose_tables(LoopInv):
+    """for atom, attrs in mol_graph._atom_attrs.items(): new_graph._atom_attrs[atom] = attrs.copy()      (and the bond table)"""
+    bonds = False
+    allocates = True
+
+    def setup(self, ctx, iterable):
+        t = "bonds" if self.bonds else "atoms"
+        self.modifies_dict_dom = (t, "attr")
+        self.modifies_dict_val = (t, "attr")
+
+    def inv(self, ctx, done):
+        e, src = ctx.fr.env["new_graph"], ctx.fr.env["mol_graph"]
+        E = ctx.h_entry
+        N = H.heap_of(ctx.interp).snapshot()
+        vE, vN, vS = GM.View(E, e), GM.View(N, e), GM.View(E, src)
+        bo = self.bonds
+        k = z3.Const("lb", BondS) if bo else z3.Int("lx")
+        k2 = z3.Const("lb2", BondS) if bo else z3.Int("ly")
+        kk = z3.Const("lkk", H.KeyS)
+        r_ = z3.Int("lr")
+        pick = lambda vv: (vv.bond, vv.bref, vv.battr_has, vv.battr_val) if bo else (vv.atom, vv.aref, vv.attr_has, vv.attr_val)  # noqa
+        hasE, refE, ahE, avE = pick(vE)
+        hasN, refN, ahN, avN = pick(vN)
+        hasS, refS, ahS, avS = pick(vS)
+        topE, topN = E.top(), N.top()
+        tname = "bonds" if bo else "atoms"
+        tref = e.fields["_bond_attrs" if bo else "_atom_attrs"].ref
+        return [
+            ("visited-are-keys", FA([k], z3.Implies(z3.Select(done, k), z3.Select(ctx.C, k)), patterns=[z3.Select(done, k)])),
+            ("keys-are-the-old-ones-and-the-visited", FA([k], hasN(k) == z3.Or(hasE(k), z3.Select(done, k)), patterns=[hasN(k)])),
+            ("visited-get-new-attribute-dicts-others-keep-theirs",
+             FA([k], z3.Implies(hasN(k), z3.If(z3.Select(done, k), z3.And(refN(k) >= topE, refN(k) < topN), refN(k) == refE(k))), patterns=[refN(k)])),
+            ("new-attribute-dicts-unshared", FA([k, k2], z3.Implies(z3.And(z3.Select(done, k), z3.Select(done, k2), k != k2), refN(k) != refN(k2)), patterns=[z3.MultiPattern(refN(k), refN(k2))])),
+            ("visited-have-the-attributes-of-the-graph-being-added",
+             FA([k, kk], z3.Implies(z3.Select(done, k), z3.And(ahN(k, kk) == ahS(k, kk), z3.Implies(ahS(k, kk), avN(k, kk) == avS(k, kk)))), patterns=[ahN(k, kk), avN(k, kk)])),
+            ("only-the-new-graph's-table-is-written", _frame_other_refs(ctx, tname, tref)),
+            ("attribute-dicts-that-existed-at-loop-entry-untouched",
+             FA([r_], z3.Implies(r_ < topE, z3.And(z3.Select(N.dom["attr"], r_) == z3.Select(E.dom["attr"], r_), z3.Select(N.val["attr"], r_) == z3.Select(E.val["attr"], r_))))),
+        ]
+
+    def hints(self, ctx, x):
+        src = ctx.fr.env["mol_graph"]
+        vS = GM.View(ctx.h_entry, src)
+        return [vS.bref(x) if self.bonds else vS.aref(x)]
+
+
+class MG_compose_1(_MG_compose_tables):
+    bonds = False
+
+
+class MG_compose_2(_MG_compose_tables):
+    bonds = True
+
+
+class MG_compose_3(LoopInv):
+    """for atom, neighbors in mol_graph._neighbors.items(): new_graph._neighbors.setdefault(atom, set()).update(neighbors)"""
+    modifies_dict_dom = ("nbrs",)
+    modifies_dict_val = ("nbrs",)
+    modifies_set = ("iset",)
+    allocates = True   # set() is evaluated in every iteration
+
+    def inv(self, ctx, done):
+        e, src = ctx.fr.env["new_graph"], ctx.fr.env["mol_graph"]
+        E = ctx.h_entry
+        N = H.heap_of(ctx.interp).snapshot()
+        vE, vN, vS = GM.View(E, e), GM.View(N, e), GM.View(E, src)
+        x, y, x2, r_ = z3.Int("lx"), z3.Int("ly"), z3.Int("lx2"), z3.Int("lr")
+        topE, topN = E.top(), N.top()
+        NT = e.fields["_neighbors"].ref
+        fresh_key = z3.And(z3.Select(done, x), z3.Not(vE.nkey(x)))
+        return [
+            ("visited-are-keys", FA([x], z3.Implies(z3.Select(done, x), z3.Select(ctx.C, x)), patterns=[z3.Select(done, x)])),
+            ("entries-are-the-old-ones-and-the-visited", FA([x], vN.nkey(x) == z3.Or(vE.nkey(x), z3.Select(done, x)), patterns=[vN.nkey(x)])),
+            ("old-entries-keep-their-set-new-entries-get-a-new-one",
+             FA([x], z3.Implies(vN.nkey(x), z3.If(fresh_key, z3.And(vN.nref(x) >= topE, vN.nref(x) < topN), vN.nref(x) == vE.nref(x))), patterns=[vN.nref(x)])),
+            ("new-sets-unshared", FA([x, x2], z3.Implies(z3.And(vN.nkey(x), vN.nkey(x2), x != x2, z3.Or(z3.Not(vE.nkey(x)), z3.Not(vE.nkey(x2)))), vN.nref(x) != vN.nref(x2)),
+                                     patterns=[z3.MultiPattern(vN.nref(x), vN.nref(x2))])),
+            ("sets-are-the-old-members-plus-the-neighbours-in-the-graph-being-added",
+             FA([x, y], z3.Implies(vN.nkey(x), vN.nbr(x, y) == z3.Or(z3.And(vE.nkey(x), vE.nbr(x, y)), z3.And(z3.Select(done, x), vS.nbr(x, y)))), patterns=[vN.nbr(x, y)])),
+            ("only-the-new-graph's-table-is-written", _frame_other_refs(ctx, "nbrs", NT)),
+            ("sets-of-the-sources-untouched", FA([r_], z3.Implies(r_ < E.A0, z3.Select(N.mem["iset"], r_) == z3.Select(E.mem["iset"], r_)))),
+        ]
+
+    def hints(self, ctx, x):
+        src = ctx.fr.env["mol_graph"]
+        return [GM.View(ctx.h_entry, src).nref(x), GM.View(ctx.h_entry, ctx.fr.env["new_graph"]).nref(x)]
+
+
 class _CRG_side_atoms(LoopInv):
     """for atom in self.atoms: product.add_atom(atom, **self._atom_attrs[atom])        (reactant() and product())"""
     modifies_dict_dom = ("atoms", "nbrs", "attr")
@@ -711,6 +799,9 @@ def _role_loop(label):
 
 
 LOOPS = {
+    ("graphs/mg.py", "MolGraph.compose", 1): MG_compose_1,
+    ("graphs/mg.py", "MolGraph.compose", 2): MG_compose_2,
+    ("graphs/mg.py", "MolGraph.compose", 3): MG_compose_3,
     ("graphs/scrg.py", "StereoCondensedReactionGraph.relabel_atoms", 0): SCRG_relabel_0,
     ("graphs/scrg.py", "StereoCondensedReactionGraph.relabel_atoms", 2): SCRG_relabel_2,
     ("graphs/crg.py", "CondensedReactionGraph.reactant", 0): CRG_reactant_0,
